@@ -4,10 +4,18 @@ package main
 // payFees transaction (plus an identical repeat) through minersc.Execute on a real state.
 
 import (
+	"context"
 	"fmt"
 	"math"
 	"math/big"
 	"math/rand"
+	"sync"
+	"time"
+
+	"0chain.net/chaincore/client"
+	"0chain.net/core/common"
+	"0chain.net/core/encryption"
+	"0chain.net/core/viper"
 
 	"0chain.net/chaincore/block"
 	"0chain.net/chaincore/chain"
@@ -50,6 +58,125 @@ type feesIn struct {
 	Miners      []feeNode `json:"miners"`
 	Sharders    []feeNode `json:"sharders"`
 	Demeter     bool      `json:"demeter,omitempty"`
+	// block level: the transactions of the block ("P" payFees by the generator, "S" an ordinary send whose
+	// fee is Fees[i]) validated by the real miner.ValidateTransactions with this validation batch size
+	Block *blockIn `json:"block,omitempty"`
+
+	idMap map[int]string // ids that are real wallet ids (block level)
+}
+
+type blockIn struct {
+	Kinds string `json:"kinds"`
+	Batch int    `json:"batch"`
+}
+
+// hx is the chain id of node / client number id.
+func (in *feesIn) hx(id int) string {
+	if s, ok := in.idMap[id]; ok {
+		return s
+	}
+	return hexID(id)
+}
+
+type wallet struct {
+	id, pub string
+	scheme  encryption.SignatureScheme
+	nonce   int64
+}
+
+func newWallet() *wallet {
+	s := encryption.NewED25519Scheme()
+	if err := s.GenerateKeys(); err != nil {
+		panic(err)
+	}
+	id, err := client.GetIDFromPublicKey(s.GetPublicKey())
+	if err != nil {
+		panic(err)
+	}
+	co := &client.Client{}
+	co.ID = id
+	if err := co.SetPublicKey(s.GetPublicKey()); err != nil {
+		panic(err)
+	}
+	if err := client.PutClientCache(co); err != nil {
+		panic(err)
+	}
+	return &wallet{id: id, pub: s.GetPublicKey(), scheme: s}
+}
+
+func (w *wallet) txn(now common.Timestamp, to string, typ int, data string, fee uint64) *transaction.Transaction {
+	w.nonce++
+	tx := &transaction.Transaction{}
+	tx.Version = "1.0"
+	tx.ClientID = w.id
+	tx.PublicKey = w.pub
+	tx.ToClientID = to
+	tx.CreationDate = now
+	tx.TransactionType = typ
+	tx.TransactionData = data
+	tx.Fee = currency.Coin(fee)
+	tx.Nonce = w.nonce
+	if err := tx.ComputeProperties(); err != nil {
+		panic(err)
+	}
+	if _, err := tx.Sign(w.scheme); err != nil {
+		panic(err)
+	}
+	tx.OutputHash = tx.ComputeOutputHash()
+	return tx
+}
+
+var (
+	mcMu    sync.Mutex
+	mcBatch = -1
+)
+
+// minerChain returns the real miner chain configured with the given validation batch size.
+func minerChain(batch int) *miner.Chain {
+	mcMu.Lock()
+	defer mcMu.Unlock()
+	if mcBatch != batch {
+		viper.Set("server_chain.block.validation.batch_size", batch)
+		viper.Set("server_chain.client.signature_scheme", "ed25519")
+		miner.SetupMinerChain(chain.NewChainFromConfig())
+		mcBatch = batch
+	}
+	mc := miner.GetMinerChain()
+	if mc.ValidationBatchSize() != batch {
+		panic("validation batch size not applied")
+	}
+	return mc
+}
+
+// validateBlock builds the block of in.Block with real signed transactions and runs the real
+// ValidateTransactions; the generator's wallet id becomes the id of node in.Generator.
+func (in *feesIn) validateBlock() bool {
+	mc := minerChain(in.Block.Batch)
+	gen, a, c := newWallet(), newWallet(), newWallet()
+	in.idMap = map[int]string{in.Generator: gen.id}
+	now := common.Now()
+	var txns []*transaction.Transaction
+	for i, k := range in.Block.Kinds {
+		if k == 'P' {
+			txns = append(txns, gen.txn(now, minersc.ADDRESS, transaction.TxnTypeSmartContract,
+				fmt.Sprintf(`{"name":"payFees","input":{"round":%d}}`, in.InRound), 0))
+		} else {
+			from, to := a, c
+			if i%2 == 1 {
+				from, to = c, a
+			}
+			txns = append(txns, from.txn(now, to.id, transaction.TxnTypeSend, "", in.Fees[i]))
+		}
+	}
+	b := &block.Block{}
+	b.Round = in.Round
+	b.MinerID = gen.id
+	b.CreationDate = now
+	b.RoundRandomSeed = in.Seed
+	b.Txns = txns
+	ctx, cancel := context.WithTimeout(context.Background(), 30*time.Second)
+	defer cancel()
+	return mc.ValidateTransactions(ctx, b) == nil
 }
 
 type nodeObs struct {
@@ -68,11 +195,14 @@ type feesRun struct {
 	pre, post map[int]nodeObs // by node id
 	repeatOK  bool
 	repeatRun bool
+	accepted  bool // block level: ValidateTransactions accepted the block
+	nPay      int
+	walletIn, walletOut uint64 // transfers queued to / from the miner contract address by the first payFees
 }
 
-func mkMinerNode(n feeNode, t spenum.Provider) *minersc.MinerNode {
+func mkMinerNode(in *feesIn, n feeNode, t spenum.Provider) *minersc.MinerNode {
 	mn := minersc.NewMinerNode()
-	mn.ID = hexID(n.ID)
+	mn.ID = in.hx(n.ID)
 	mn.ProviderType = t
 	mn.NodeType = minersc.NodeTypeMiner
 	if t == spenum.Sharder {
@@ -106,7 +236,7 @@ func obsNode(mn *minersc.MinerNode, n int) nodeObs {
 // prepare fills the block and magic block of a context the way the chain would.
 func (in *feesIn) prepare(ctx *cstate.StateContext) {
 	b := ctx.GetBlock()
-	b.MinerID = hexID(in.Generator)
+	b.MinerID = in.hx(in.Generator)
 	b.SetRoundRandomSeed(in.Seed)
 	b.Txns = nil
 	for _, f := range in.Fees {
@@ -117,7 +247,7 @@ func (in *feesIn) prepare(ctx *cstate.StateContext) {
 	for _, s := range in.Sharders {
 		if s.InMB {
 			n := node.Provider()
-			n.ID = hexID(s.ID)
+			n.ID = in.hx(s.ID)
 			n.Type = node.NodeTypeSharder
 			mb.Sharders.NodesMap[n.ID] = n
 			mb.Sharders.Nodes = append(mb.Sharders.Nodes, n)
@@ -136,7 +266,7 @@ func (in *feesIn) readNodes(e *env) map[int]nodeObs {
 		for _, l := range [][]feeNode{in.Miners, in.Sharders} {
 			for _, n := range l {
 				mn := minersc.NewMinerNode()
-				mn.ID = hexID(n.ID)
+				mn.ID = in.hx(n.ID)
 				if err := ctx.GetTrieNode(mn.GetKey(), mn); err != nil {
 					panic(err)
 				}
@@ -151,7 +281,16 @@ func runFees(in *feesIn) *feesRun {
 	config.Configuration().ChainConfig = chain.NewConfigImpl(&chain.ConfigData{})
 	e := newEnv()
 	e.round = in.Round
-	r := &feesRun{minerIdx: -1}
+	r := &feesRun{minerIdx: -1, accepted: true, nPay: 1}
+	if in.Block != nil {
+		r.accepted = in.validateBlock()
+		r.nPay = 0
+		for _, k := range in.Block.Kinds {
+			if k == 'P' {
+				r.nPay++
+			}
+		}
+	}
 	e.must(func(ctx *cstate.StateContext) error {
 		gn := &minersc.GlobalNode{ViewChange: -1, MaxN: 10, MinN: 1, MaxS: 10, MinS: 1, MaxDelegates: 200, MaxStake: 1e15,
 			RewardRate: math.Float64frombits(in.RateBits), ShareRatio: math.Float64frombits(in.ShareBits), BlockReward: currency.Coin(in.BlockReward),
@@ -162,14 +301,14 @@ func runFees(in *feesIn) *feesRun {
 		}
 		var mids, sids minersc.NodeIDs
 		for _, n := range in.Miners {
-			mn := mkMinerNode(n, spenum.Miner)
+			mn := mkMinerNode(in, n, spenum.Miner)
 			if _, err := ctx.InsertTrieNode(mn.GetKey(), mn); err != nil {
 				return err
 			}
 			mids = append(mids, mn.ID)
 		}
 		for _, n := range in.Sharders {
-			mn := mkMinerNode(n, spenum.Sharder)
+			mn := mkMinerNode(in, n, spenum.Sharder)
 			if _, err := ctx.InsertTrieNode(mn.GetKey(), mn); err != nil {
 				return err
 			}
@@ -187,7 +326,7 @@ func runFees(in *feesIn) *feesRun {
 		in.prepare(ctx)
 		if mn, err := minersc.VerifGetRewardedMiner(ctx.GetBlock(), ctx); err == nil && mn != nil {
 			for i, n := range in.Miners {
-				if hexID(n.ID) == mn.ID {
+				if in.hx(n.ID) == mn.ID {
 					r.minerIdx = i
 				}
 			}
@@ -218,7 +357,7 @@ func runFees(in *feesIn) *feesRun {
 		}
 		r.rewarded = mbIDs[:k]
 		for _, si := range r.rewarded {
-			mn := mkMinerNode(in.Sharders[si], spenum.Sharder)
+			mn := mkMinerNode(in, in.Sharders[si], spenum.Sharder)
 			var d []int
 			func() {
 				defer func() { _ = recover() }()
@@ -230,13 +369,39 @@ func runFees(in *feesIn) *feesRun {
 		}
 	})
 	pay := func(k int) txnRes {
-		txn := sc.Txn(fmt.Sprintf("%064x", 0xfee000+k), hexID(in.Client), minersc.ADDRESS, 0, 10)
+		txn := sc.Txn(fmt.Sprintf("%064x", 0xfee000+k), in.hx(in.Client), minersc.ADDRESS, 0, 10)
 		return e.exec(txn, func(ctx *cstate.StateContext) (string, error) {
 			in.prepare(ctx)
 			return e.msc.Execute(txn, "payFees", jsonOf(minersc.PayFeesInput{Round: in.InRound}), ctx)
 		})
 	}
+	if in.Block != nil {
+		// a rejected block is not executed; an accepted one executes every payFees it carries
+		if r.accepted {
+			for k := 0; k < r.nPay; k++ {
+				res := pay(k)
+				if k == 0 {
+					switch {
+					case res.Panic != "":
+						r.outcome, r.err = 2, res.Panic
+					case res.Err != nil:
+						r.outcome, r.err = 1, res.Err.Error()
+					}
+				}
+			}
+		}
+		r.post = in.readNodes(e)
+		return r
+	}
 	res := pay(0)
+	for _, t := range res.Transfers {
+		if t.ToClientID == minersc.ADDRESS {
+			r.walletIn += uint64(t.Amount)
+		}
+		if t.ClientID == minersc.ADDRESS {
+			r.walletOut += uint64(t.Amount)
+		}
+	}
 	switch {
 	case res.Panic != "":
 		r.outcome, r.err = 2, res.Panic
@@ -286,6 +451,21 @@ func eligible(n feeNode, draws []int, k int) bool {
 func oracleFees(in *feesIn, r *feesRun, kinds map[string]int) string {
 	if !miner.VerifIsBuildInTxnName("payFees") {
 		return "payfees-not-a-built-in-transaction" // the once-per-block rule of ValidateTransactions would not cover it
+	}
+	if in.Block != nil {
+		kinds[fmt.Sprintf("block:%d-payFees:accepted=%v", r.nPay, r.accepted)]++
+		if r.accepted && r.nPay >= 2 {
+			return "block-with-duplicate-payfees-accepted" // once per round is enforced by ValidateTransactions only
+		}
+		if !r.accepted {
+			if r.nPay <= 1 {
+				return "valid-block-rejected"
+			}
+			return ""
+		}
+		if r.nPay == 0 {
+			return ""
+		}
 	}
 	if r.outcome == 2 {
 		if r.live && len(r.rewarded) == 0 && in.Client == in.Generator && in.InRound == in.Round {
@@ -398,8 +578,20 @@ func coqFees(in *feesIn, r *feesRun) string {
 		sout = append(sout, coqObs(r.post[in.Sharders[si].ID]))
 		sd = append(sd, vh.NatList(r.sdraws[k]))
 	}
+	names, acc := "[1]", true
+	if in.Block != nil {
+		var ns []string
+		for _, k := range in.Block.Kinds {
+			if k == 'P' {
+				ns = append(ns, "1")
+			} else {
+				ns = append(ns, "0")
+			}
+		}
+		names, acc = vh.List(ns), r.accepted
+	}
 	return fmt.Sprintf("{| mfc_ratio_bits := %s; mfc_block_reward := %s; mfc_rate_bits := %s; mfc_nmd := %d; mfc_nsd := %d; "+
-		"mfc_round := %d; mfc_generator := %d; mfc_fees := %s; mfc_client := %d; mfc_in_round := %s; mfc_miner := %s; mfc_live := %s; "+
+		"mfc_round := %d; mfc_generator := %d; mfc_fees := %s; mfc_client := %d; mfc_in_round := %s; mfc_block_names := "+names+"; mfc_block_accepted := "+vh.Bool(acc)+"; mfc_miner := %s; mfc_live := %s; "+
 		"mfc_sharders := %s; mfc_mdraws := %s; mfc_sdraws := %s; mfc_out := %d; mfc_out_miner := %s; mfc_out_sharders := %s |}",
 		vh.ZU(in.ShareBits), vh.ZU(in.BlockReward), vh.ZU(in.RateBits), in.NMD, in.NSD,
 		in.Round, in.Generator, vh.ZUList(in.Fees), in.Client, vh.Z(in.InRound), mnode, vh.Bool(r.live),
@@ -484,6 +676,45 @@ func genFees(r *vh.Rand) *feesIn {
 	return in
 }
 
+// genBlockFees: a whole block (1-2 payFees of the generator among ordinary sends) for block validation.
+func genBlockFees(r *vh.Rand) *feesIn {
+	in := genFees(r)
+	in.Generator = in.Miners[r.Intn(len(in.Miners))].ID
+	in.Client, in.InRound = in.Generator, in.Round
+	batch := []int{1, 2, 2, 3, 5, 64}[r.Intn(6)]
+	n := r.Range(2, 12)
+	kinds := make([]byte, n)
+	for i := range kinds {
+		kinds[i] = 'S'
+	}
+	p1 := r.Intn(n)
+	kinds[p1] = 'P'
+	if r.Chance(3, 5) { // a second payFees: adjacent, same batch, another batch, first/last
+		p2 := r.Intn(n)
+		switch r.Intn(4) {
+		case 0:
+			p1, p2 = 0, n-1
+			kinds = []byte(string(make([]byte, 0)))
+			kinds = make([]byte, n)
+			for i := range kinds {
+				kinds[i] = 'S'
+			}
+			kinds[0] = 'P'
+		case 1:
+			p2 = (p1 + 1) % n
+		}
+		kinds[p2] = 'P'
+	}
+	in.Fees = make([]uint64, n)
+	for i := range kinds {
+		if kinds[i] == 'S' {
+			in.Fees[i] = uint64(r.Intn(100000))
+		}
+	}
+	in.Block = &blockIn{Kinds: string(kinds), Batch: batch}
+	return in
+}
+
 func fixedFees() []*feesIn {
 	half, one := math.Float64bits(0.5), math.Float64bits(1)
 	n := func(id int, pools ...dpoolIn) feeNode { return feeNode{ID: id, InMB: true, Pools: pools} }
@@ -497,6 +728,19 @@ func fixedFees() []*feesIn {
 			Miners: []feeNode{n(100, dpoolIn{50, 0}), n(101, dpoolIn{50, 0})}},
 		{ShareBits: half, BlockReward: 1000, RateBits: one, NMD: 10, NSR: 1, NSD: 10, Round: 7, Seed: 1, Generator: 100, Client: 100, InRound: 8,
 			Miners: []feeNode{n(100, dpoolIn{50, 0})}},
+		// block level: one payFees; two adjacent; two in different validation batches (first / last)
+		{ShareBits: half, BlockReward: 1000, RateBits: one, NMD: 10, NSR: 1, NSD: 10, Round: 17, Seed: 4711, Generator: 100, Client: 100, InRound: 17,
+			Fees: []uint64{37, 37, 37, 0}, Miners: []feeNode{n(100, dpoolIn{500, 0})}, Sharders: []feeNode{n(200, dpoolIn{500, 0})},
+			Block: &blockIn{Kinds: "SSSP", Batch: 2}},
+		{ShareBits: half, BlockReward: 1000, RateBits: one, NMD: 10, NSR: 1, NSD: 10, Round: 17, Seed: 4711, Generator: 100, Client: 100, InRound: 17,
+			Fees: []uint64{37, 37, 0, 0}, Miners: []feeNode{n(100, dpoolIn{500, 0})}, Sharders: []feeNode{n(200, dpoolIn{500, 0})},
+			Block: &blockIn{Kinds: "SSPP", Batch: 2}},
+		{ShareBits: half, BlockReward: 1000, RateBits: one, NMD: 10, NSR: 1, NSD: 10, Round: 17, Seed: 4711, Generator: 100, Client: 100, InRound: 17,
+			Fees: []uint64{0, 37, 37, 0}, Miners: []feeNode{n(100, dpoolIn{500, 0})}, Sharders: []feeNode{n(200, dpoolIn{500, 0})},
+			Block: &blockIn{Kinds: "PSSP", Batch: 2}},
+		{ShareBits: half, BlockReward: 1000, RateBits: one, NMD: 10, NSR: 1, NSD: 10, Round: 17, Seed: 4711, Generator: 100, Client: 100, InRound: 17,
+			Fees: []uint64{0, 5, 5, 5, 5, 5, 5, 5, 0}, Miners: []feeNode{n(100, dpoolIn{500, 0})}, Sharders: []feeNode{n(200, dpoolIn{500, 0})},
+			Block: &blockIn{Kinds: "PSSSSSSSP", Batch: 3}},
 	}
 }
 
@@ -513,7 +757,19 @@ func shrinkFees(in *feesIn, sig string) *feesIn {
 			c = d
 		}
 	}
-	try(func(d *feesIn) { d.Fees = nil })
+	if c.Block == nil {
+		try(func(d *feesIn) { d.Fees = nil })
+	} else {
+		for i := len(c.Block.Kinds) - 1; i >= 0; i-- {
+			i := i
+			if c.Block.Kinds[i] == 'S' && len(c.Block.Kinds) > 2 {
+				try(func(d *feesIn) {
+					d.Block = &blockIn{Kinds: d.Block.Kinds[:i] + d.Block.Kinds[i+1:], Batch: d.Block.Batch}
+					d.Fees = append(d.Fees[:i], d.Fees[i+1:]...)
+				})
+			}
+		}
+	}
 	for i := len(c.Sharders) - 1; i >= 0; i-- {
 		i := i
 		try(func(d *feesIn) { d.Sharders = append(d.Sharders[:i], d.Sharders[i+1:]...) })
@@ -537,6 +793,7 @@ func runC22(o vh.Opts) {
 		"service charge 0-0.5), share ratio 0, 1, 0.16, ... or random, block reward 0 ... 2^53+1, reward rate 1/0.5/0.9/0, 0-5 transaction fees, " +
 		"rewarded sharders 0-100, rewarded delegates 0-10, both hard-fork variants; caller = generator or (1 in 5) somebody else, input round = block " +
 		"round or (1 in 6) off by up to 2, generator sometimes not a registered miner; non-trivial = accepted and every involved node eligible; distinct by full input"
+	rep.Note("block level: 60 (quick) blocks of 2-12 signed transactions with one or two payFees of the generator (adjacent, far apart, first/last) and validation batch sizes 1,2,3,5,64 go through the real miner.ValidateTransactions; accepted blocks are executed through the contract")
 	rep.Note("F-22: the contract has no once-per-round guard; every accepted payment is repeated and the outcome counted; the oracle checks that payFees is in miner.gBuildInTxnsMap (ValidateTransactions rejects a block with two of them)")
 	cf := &vh.CasesFile{Imports: []string{"Base.Corr", "Model.StakePool", "Model.MinerFees", "Corr.MinerFees"}, CaseType: "mfc_case", CheckFn: "mfc_check", Shard: 100}
 	handle := func(in *feesIn) {
@@ -566,10 +823,122 @@ func runC22(o vh.Opts) {
 		handle(in)
 	}
 	rnd := vh.NewRand(o.Seed)
-	for i := 0; i < o.N(300, 4000); i++ {
+	for i := 0; i < o.N(260, 3600); i++ {
 		handle(genFees(rnd))
+	}
+	for i := 0; i < o.N(60, 600); i++ {
+		handle(genBlockFees(rnd))
 	}
 	finish(o, rep, cf, "C22")
 }
 
 var _ = block.Block{}
+
+// ---------- C09 (liabilities never grow without backing): the miner contract's payouts ----------
+
+// oracleC09 evaluates the C09 step inequality on one payFees transaction:
+//   L' - L <= (W' - W) + minted,  L = unpaid rewards of every miner / sharder stake pool (provider + delegates;
+//   payFees never touches a stake), W = balance of the contract address (moved only by queued transfers),
+//   minted = the block's fees + block reward that the transaction newly accrues.
+func oracleC09(in *feesIn, r *feesRun, kinds map[string]int) string {
+	dL := new(big.Int)
+	for id, o := range r.pre {
+		dL.Add(dL, new(big.Int).Sub(r.post[id].total(), o.total()))
+	}
+	if r.outcome != 0 {
+		kinds["rejected"]++
+		if dL.Sign() != 0 {
+			return "failed-payfees-changed-liabilities"
+		}
+		return ""
+	}
+	kinds["accepted"]++
+	minted := new(big.Int)
+	for _, f := range in.Fees {
+		minted.Add(minted, bz(f))
+	}
+	brc, err := currency.MultFloat64(currency.Coin(in.BlockReward), math.Float64frombits(in.RateBits))
+	if err != nil {
+		return ""
+	}
+	minted.Add(minted, bz(uint64(brc)))
+	backing := new(big.Int).Sub(bz(r.walletIn), bz(r.walletOut))
+	backing.Add(backing, minted)
+	if dL.Sign() > 0 {
+		kinds["accepted:liabilities-grew"]++
+	}
+	if dL.Cmp(backing) > 0 {
+		return "minersc-liability-without-backing"
+	}
+	return ""
+}
+
+func runC09(o vh.Opts) {
+	sc.Init()
+	rep := vh.NewReport("stake", "C09", o)
+	rep.Rule = "miner contract part of C09: the payFees cases of the C22 engine (1-3 miners, 0-4 sharders, delegates, share ratio, block reward, " +
+		"fees, rewarded sharders / delegates, foreign callers, wrong rounds) run through minersc.Execute on a real state; after every payFees " +
+		"the oracle evaluates L' - L <= (W' - W) + fees + block reward with L = all unpaid stake-pool rewards of miners and sharders and W = the " +
+		"transfers queued to/from the contract address; non-trivial = accepted and the liabilities grew; distinct by full input"
+	rep.Note("the model/implementation correspondence of payFees is part of C22 (same engine, same cases); no Coq cases are emitted here")
+	cf := &vh.CasesFile{Imports: []string{"Base.Corr"}, CaseType: "nat", CheckFn: "fun _ => true"}
+	handle := func(in *feesIn) {
+		r := runFees(in)
+		kinds := map[string]int{}
+		sig := oracleC09(in, r, kinds)
+		for k, n := range kinds {
+			rep.CountN(k, n)
+		}
+		rep.Case(string(jsonOf(in)), kinds["accepted:liabilities-grew"] > 0, in)
+		if sig != "" {
+			rep.Count("violation:" + sig)
+			m := in
+			// shrink with the same oracle
+			fails := func(c *feesIn) bool { return oracleC09(c, runFees(c), map[string]int{}) == sig }
+			c := *in
+			try := func(f func(d *feesIn)) {
+				d := c
+				d.Miners = append([]feeNode{}, c.Miners...)
+				d.Sharders = append([]feeNode{}, c.Sharders...)
+				d.Fees = append([]uint64{}, c.Fees...)
+				f(&d)
+				if fails(&d) {
+					c = d
+				}
+			}
+			try(func(d *feesIn) { d.Fees = nil })
+			for i := len(c.Sharders) - 1; i >= 0 && len(c.Sharders) > 2; i-- {
+				i := i
+				try(func(d *feesIn) { d.Sharders = append(d.Sharders[:i], d.Sharders[i+1:]...) })
+			}
+			for i := range c.Miners {
+				i := i
+				try(func(d *feesIn) { d.Miners[i].Pools = nil })
+			}
+			for i := range c.Sharders {
+				i := i
+				try(func(d *feesIn) { d.Sharders[i].Pools = nil })
+			}
+			m = &c
+			rep.Violate("C09:"+sig, "payFees: "+sig, m)
+		}
+	}
+	var rin feesIn
+	if o.LoadReplay(&rin) {
+		if len(rin.Miners) > 0 { // a replay of the storage engine's input is not ours
+			handle(&rin)
+		}
+		finish(o, rep, cf, "C09")
+		return
+	}
+	for _, in := range fixedFees() {
+		if in.Block == nil {
+			handle(in)
+		}
+	}
+	rnd := vh.NewRand(o.Seed)
+	for i := 0; i < o.N(200, 3000); i++ {
+		handle(genFees(rnd))
+	}
+	finish(o, rep, cf, "C09")
+}
